@@ -16,10 +16,10 @@ Record sobs := {
   o_def : option N;                           (* default_backend of the http frontend; None = _error404 *)
   o_glob : N;
   o_crt : list N;                             (* hosts with their own certificate in _front_bind_crt.list *)
-  o_hostmap : list (N * (N * N));             (* (host, (path, backend)) of the referenced _front_http_host maps *)
+  o_hostmap : list (N * (N * N));             (* (host or alias, (path, backend)) of the referenced _front_http_host maps *)
   o_rootredir : list (N * N);                 (* (host, version marker) of the referenced _front_redir_fromroot maps *)
   o_rootssl : list N;                         (* hosts of the referenced _front_redir_root_ssl maps *)
-  o_backmaps : list (N * list (N * N));       (* backend sections that refer to idpath maps: their (host, path) keys *)
+  o_backmaps : list (N * list (N * N));       (* backend sections that refer to idpath maps: their (host or alias, path) keys *)
   o_tcpmap : list (N * N);                    (* (tcp service, backend) of the referenced _tcp_sni maps *)
   o_tcpcrt : list N                           (* tcp services of the referenced tcp crt-lists *)
 }.
@@ -45,7 +45,8 @@ Definition observe (e : env) (s : inst) (err reload : bool) (runeq : bool) : sob
      o_glob := match d_main d with Some m => m_glob m | None => 0 end;
      o_crt := filter (fun h => match loaded_crt d h with Some c => htls c | None => false end) (UH e);
      o_hostmap := flat_map (fun h => match loaded_hostmap e d h with
-                                     | Some c => map (fun p => (h, p)) (hpaths c) | None => [] end) (UH e);
+                                     | Some c => flat_map (fun k => map (fun p => (k, p)) (hpaths c)) (h :: halias c)
+                                     | None => [] end) (UH e);
      o_rootredir := flat_map (fun h => match loaded_rootredir e d h with Some c => [(h, hver c)] | None => [] end) (UH e);
      o_rootssl := filter (loaded_rootssl e d) (UH e);
      o_backmaps := flat_map (fun x => match loaded_any e d x with
